@@ -100,6 +100,10 @@ func (p *c06Prop) Gen(r *Rng, i int, tier string) interface{} {
 			}
 			pk.NF = 1 + r.Intn(3)
 			if t == 8 {
+				before := map[int]bool{}
+				for f, v := range subscribed {
+					before[f] = v
+				}
 				for j := 0; j < pk.NF; j++ {
 					f := r.Intn(6)
 					pk.Fs = append(pk.Fs, f)
@@ -118,6 +122,28 @@ func (p *c06Prop) Gen(r *Rng, i int, tier string) interface{} {
 				}
 				if r.Chance(12) {
 					pk.Pad = []int{127, 128, 129, 256}[r.Intn(4)]
+				}
+				// what this packet does NOT subscribe under the plain name "s/<j>": its first filter when it is padded, its
+				// last one when that is a $share/ filter and shared subscriptions are off (the bookkeeping keeps the v5
+				// UNSUBSCRIBEs inside what is subscribed, see below)
+				notSub := map[int]bool{}
+				if pk.Pad > 0 {
+					notSub[0] = true
+				}
+				if pk.QoS == 2 && pk.NF >= 2 && c.NoShared {
+					notSub[pk.NF-1] = true
+				}
+				for idx := range notSub {
+					f := pk.Fs[idx]
+					elsewhere := false
+					for j, g := range pk.Fs {
+						if g == f && !notSub[j] {
+							elsewhere = true
+						}
+					}
+					if !elsewhere && !before[f] {
+						delete(subscribed, f)
+					}
 				}
 			} else {
 				// v5: stay outside known finding C06-unsuback-no-codes: unsubscribe what is subscribed
